@@ -105,8 +105,9 @@ static void bputs(struct buf *b, const char *s)
   bput(b, s, n);
 }
 
-static void snapshot(struct buf *b, int image, char *const *argv, char *const *envp)
+static void snapshot(struct buf *b, int image_arg, char *const *argv, char *const *envp)
 {
+  int image = image_arg & 0xff, lite = image_arg & 0x100, bound = (image_arg >> 12) & 0xfff;
   bput32(b, (uint32_t) getpid());
   bput32(b, (uint32_t) image);
   uint32_t n = 0;
@@ -139,7 +140,7 @@ static void snapshot(struct buf *b, int image, char *const *argv, char *const *e
   sigset_t cur;
   sigemptyset(&cur);
   sigprocmask(SIG_SETMASK, NULL, &cur);
-  for (int s = 1; s < 64; s++) {
+  for (int s = 1; s < (lite ? 1 : 32); s++) {
     if (sigismember(&cur, s) == 1) blk |= 1ull << s;
     struct sigaction sa;
     if (sigaction(s, NULL, &sa) == 0) {
@@ -154,7 +155,22 @@ static void snapshot(struct buf *b, int image, char *const *argv, char *const *e
   size_t cntpos = b->n;
   bput32(b, 0);
   uint32_t cnt = 0;
-  DIR *d = opendir("/proc/self/fd");
+  if (lite && bound > 0) {
+    for (int fd = 0; fd < bound; fd++) {
+      struct stat st;
+      struct vc_fdinfo fi;
+      int fdfl = fcntl(fd, F_GETFD);
+      if (fdfl < 0) continue;
+      memset(&fi, 0, sizeof fi);
+      fi.fd = fd;
+      if (fstat(fd, &st) == 0) { fi.mode = st.st_mode; fi.dev = st.st_dev; fi.ino = st.st_ino; fi.rdev = st.st_rdev; }
+      fi.flags = fcntl(fd, F_GETFL);
+      fi.fdflags = fdfl;
+      bput(b, &fi, sizeof fi);
+      cnt++;
+    }
+  }
+  DIR *d = lite && bound > 0 ? NULL : opendir("/proc/self/fd");
   if (d) {
     int dfd = dirfd(d);
     struct dirent *e;
